@@ -212,6 +212,7 @@ def make_cases(run):
     cases += [("untyped", G.gen_untyped(rng)) for _ in range(nunt)]
     cases += [("interleave-spec", d) for d in G.gen_interleave_spec(rng, 30 if quick else 400)]
     cases += [("level-indexes-spec", d) for d in G.gen_level_indexes_spec(rng, 150 if quick else 3000)]
+    cases += [("units-spec", d) for d in G.gen_units_spec(rng, 1 if quick else 8)]
     cases += [("near-interleave", d) for d in G.gen_near_interleave(rng, 45 if quick else 600)]
     for d, fw in G.gen_attached_spec(rng, 120 if quick else 1500):
         FW[d] = fw
@@ -445,6 +446,33 @@ def spec_level_indexes(run, cases, cres):
         if not ok:
             run.violation("spec:level-os-index", "the objects of type %d loaded from %r do not carry the written os_index values: loaded %s..., written %s..." % (
                 ty, d[:100], [x for x in got if x not in want][:3], [x for x in want if x not in got][:3]), replay_text(d))
+
+
+def spec_units(run, cases, cres):
+    """sizes written with unit suffixes (any letter case): cache sizes, NUMA memory, memory-side cache sizes loaded by the
+    library must be number x documented multiplier (gen/synthetic_gen.py DOC_UNITS, written by hand: not the model's
+    table, not derived from the source)."""
+    for idx, (kind, d) in enumerate(cases):
+        exp = G.units_expected(d)
+        c = cres.get(str(idx))
+        if exp is None or c is None or not c.get("loaded"):
+            continue
+        bad = None
+        for ty, b in exp["cache"].items():
+            got = sorted(set(int(l.split()[3]) for l in c["objs"] if l.startswith("O %d " % ty)))
+            if got != [b]:
+                bad = "cache type %d: size(s) loaded %s, written %d bytes" % (ty, got, b)
+        if exp["mem"] is not None:
+            got = sorted(set(int(l.split()[2]) for l in c["objs"] if l.startswith("M ")))
+            if got != [exp["mem"]]:
+                bad = "NUMA memory loaded %s, written %d bytes" % (got, exp["mem"])
+        if exp["msc"] is not None:
+            got = sorted(set(int(l.split()[3]) for l in c["objs"] if l.startswith("M ")))
+            if got != [exp["msc"]]:
+                bad = "memory-side cache size loaded %s, written %d bytes" % (got, exp["msc"])
+        run.bump("spec:units:" + ("ok" if bad is None else "MISMATCH"))
+        if bad:
+            run.violation("spec:size-unit", "sizes loaded from %r are not those written (documented multipliers): %s" % (d, bad), replay_text(d, bad))
 
 
 def spec_distinct_indexes(run, cases, cres, exe):
@@ -726,6 +754,7 @@ def check(run, replay=None):
     judge(run, cases, model, cres, exe, drv, limit)
     spec_interleaving(run, cases, cres)
     spec_implicit_numa(run, cases, cres)
+    spec_units(run, cases, cres)
     spec_level_indexes(run, cases, cres)
     spec_distinct_indexes(run, cases, cres, exe)
     filter_pass(run, cases, model, cres, exe)
